@@ -11,6 +11,8 @@ ENGINE_TRUST = [
     'loop treatment, obligation bookkeeping)',
     'z3 5.1.0 (z3-solver wheel), cvc5 1.0.3 CLI as second opinion for unknowns',
     'CPython 3.12.1 only: sys.version_info branches are decided concretely and the dead branch is listed as version-pruned',
+    'type invariant of every symbolic ast node: the list fields `targets` (Assign, Delete) and `names` (Import, ImportFrom, Global, Nonlocal) are '
+    'never empty (CPython ast.c validator; assumed, no function of the package is checked to preserve it)',
 ]
 
 PROPS = {}
